@@ -5,8 +5,8 @@ import (
 	"math/big"
 	"strings"
 
-	"github.com/33cn/chain33/common/difficulty"
 	dbm "github.com/33cn/chain33/common/db"
+	"github.com/33cn/chain33/common/difficulty"
 	"github.com/33cn/chain33/types"
 	"verif/vnode"
 	"verif/vx"
@@ -244,18 +244,56 @@ func RunCrash(r *vx.Run, maxN int) {
 			r.Seen("histories", fmt.Sprintf("%s|%v", h.sh, order))
 			r.Seen("distinct", fmt.Sprintf("n=%d units=%d reorg=%v", n, N, len(reached[len(reached)-1]) < TrunkLen+1+n))
 			for c := 0; c <= N; c++ {
-				t := env.Fresh()
-				dbm.VDBControl(true, c)
-				for _, i := range order {
-					_ = t.Deliver(vnode.Broadcast, h.blocks[i], "peer")
+				c := c
+				// one crash point: run the history with the process dying after c durable writes, restart, judge
+				judge := func() string {
+					t := env.Fresh()
+					dbm.VDBControl(true, c)
+					for _, i := range order {
+						_ = t.Deliver(vnode.Broadcast, h.blocks[i], "peer")
+					}
+					t.Close()
+					snap := t.Snapshot() // the history ended before the crash point: everything was written
+					if img := dbm.VDBCrashImage(); img != nil {
+						snap = vnode.Snapshot{"blockchain": img[t.ID+"/blockchain"], "store": img[t.ID+"/store"]}
+					}
+					dbm.VDBControl(false, -1)
+					t.Forget()
+					var bad string
+					p := vx.Catch(func() {
+						n2 := vnode.New(vnode.Options{Snap: snap})
+						defer func() { n2.Close(); n2.Forget() }()
+						chain := chainOf(n2)
+						if w := cc.consistent(n2, chain); w != "" {
+							bad = "inconsistent after restart: " + w
+							return
+						}
+						ok := false
+						for _, rc := range reached {
+							if isPrefix(chain, rc) {
+								ok = true
+							}
+						}
+						if !ok {
+							bad = "the chain after restart is neither one the uninterrupted run reached nor a prefix of one"
+							return
+						}
+						for round := 0; round < 2; round++ {
+							for _, i := range order {
+								_ = n2.Deliver(vnode.Broadcast, h.blocks[i], "peer")
+							}
+						}
+						got := n2.Observe(txs)
+						if d := got.Diff(final, 5); len(d) > 0 {
+							bad = "continued processing does not reach the uninterrupted final chain: " + strings.Join(d, "; ")
+						}
+					})
+					if p != "" {
+						bad = "restart " + p
+					}
+					return bad
 				}
-				t.Close()
-				snap := t.Snapshot() // the history ended before the crash point: everything was written
-				if img := dbm.VDBCrashImage(); img != nil {
-					snap = vnode.Snapshot{"blockchain": img[t.ID+"/blockchain"], "store": img[t.ID+"/store"]}
-				}
-				dbm.VDBControl(false, -1)
-				t.Forget()
+				bad := judge()
 				r.Count("executions", 1)
 				r.Count("crash_points", 1)
 				r.Count("transitions", int64(c))
@@ -275,40 +313,9 @@ func RunCrash(r *vx.Run, maxN int) {
 					}
 				}
 				r.Seen("states", fmt.Sprintf("%s|%v|%d", h.sh, order, c))
-				var bad string
-				p := vx.Catch(func() {
-					n2 := vnode.New(vnode.Options{Snap: snap})
-					defer func() { n2.Close(); n2.Forget() }()
-					chain := chainOf(n2)
-					if w := cc.consistent(n2, chain); w != "" {
-						bad = "inconsistent after restart: " + w
-						return
-					}
-					ok := false
-					for _, rc := range reached {
-						if isPrefix(chain, rc) {
-							ok = true
-						}
-					}
-					if !ok {
-						bad = "the chain after restart is neither one the uninterrupted run reached nor a prefix of one"
-						return
-					}
-					for round := 0; round < 2; round++ {
-						for _, i := range order {
-							_ = n2.Deliver(vnode.Broadcast, h.blocks[i], "peer")
-						}
-					}
-					got := n2.Observe(txs)
-					if d := got.Diff(final, 5); len(d) > 0 {
-						bad = "continued processing does not reach the uninterrupted final chain: " + strings.Join(d, "; ")
-					}
-				})
-				if p != "" {
-					bad = "restart " + p
-				}
 				if bad != "" {
-					r.Violate("crash:"+where+":"+vx.Norm(bad, 50), desc+" ["+where+"]: "+bad, kase, nil)
+					// the same crash point must fail the same way every time before it is believed
+					r.Violate("crash:"+where+":"+vx.Norm(bad, 50), desc+" ["+where+"]: "+bad, kase, func() string { return vx.Norm(judge(), 50) })
 				}
 			}
 			r.SampleN(5, map[string]interface{}{"tree": h.sh.String(), "order": order, "durable_write_units": N, "crash_points": N + 1})
